@@ -61,7 +61,11 @@ class P(vlib.Prop):
             "non-trivial = at least one hand-off or one blocked/awaiting producer. Round 3: every in-memory enqueue is "
             "bracketed by LPick/LObj labels carrying the identity of the blockingDone that sync.Pool handed out "
             "(pool reuse and abandonment are checked against the model's pool), and 80 cases call "
-            "hasMoreSpace.Broadcast() directly with 0-3 counted waiters (label LBroadcast, cond API only).")
+            "hasMoreSpace.Broadcast() directly with 0-3 counted waiters (label LBroadcast, cond API only). Strengthening 2: "
+            "observations carry the number of consumers parked un-signalled in Read (sync.Cond notify list, by reflection); "
+            "non-blocking scripts park up to 3 real consumers in Read (LCRead/LCWake) and corrupt stored copies of queued "
+            "requests of the persistent queue (LCorrupt, the last queued one half of the time); 90 cases line up 1-3 Offers "
+            "on the held mutex in front of 1-3 parked consumers; 60 cases put unreadable items in front of blocked producers.")
     trusted_base = [
         "Coq 8.16.1 kernel + vm_compute (coqc); no axioms (Print Assumptions: closed under the global context)",
         "hand-written LTS coq/C02/Model.v after memory_queue.go, persistent_queue.go (volatile half), cond.go, async_queue.go's consumer loop; tied by the correspondence run",
